@@ -186,6 +186,11 @@ def single_watson(rng, tier):
     y *= 10.0 ** rng.integers(-3, 4, size=(*lead, N, 1))
     s = None if (rng.random() < 0.3 and not _FORCE[0]) else sal_kind(rng, rng.uniform(0.0, 2.0, size=(*lead, N)))
     kmax = float(rng.choice([500.0, 500.0, 50.0]))
+    _WC[0] += 1
+    if _WC[0] % 2 == 0 and not _LARGE[0]:
+        # every run, both caps: frames so concentrated (top scatter eigenvalue > 0.999) that the cap decides the concentration
+        y = a * mm.crandn(rng, (*lead, N, 1)) * 60.0 + mm.crandn(rng, (*lead, N, D))
+        kmax = [50.0, 500.0][(_WC[0] // 2) % 2]
     rp = {'fn': 'watson', 'y': y, 's': s, 'kmax': kmax}
     return _mk(rp, 'ComplexWatsonTrainer.fit D=%d N=%d lead=%s saliency=%s max_concentration=%g' % (D, N, lead, s is not None, kmax),
                N > D and (s is None or np.ptp(np.asarray(s, float)) > 0), rng)
@@ -760,6 +765,7 @@ def eval_repeat(rp, rng):
 
 # ----------------------------------------------------------------------------- whole GMM fit executed by the model
 _GL = [0]
+_WC = [0]
 _RPC = [0]
 
 
